@@ -356,7 +356,7 @@ pub fn check() -> Check {
     Check {
         id: "C18",
         level: "exploration",
-        rule: "2..=4 real instances put, by public operations only, into random reachable mutual-knowledge states (unknown/Alive/Suspect/Down/superseded generation; active/idle/left/told-down; renewable or not; notify_down_members on/off; with/without custom broadcasts); one well-formed datagram of each of the 11 kinds (case index mod 11) injected; network drained with all timers held under 5 delivery-order strategies (random, FIFO, LIFO, gossip-before-TurnUndead with newest identities first, TurnUndead-first with oldest identities first). Caps: 64 deliveries per cascade, 4 deliveries of the same (src,dst,kind), fan-out (self-directed updates+1)*k+2 per delivery. Non-trivial: >= 2 deliveries; distinct by (world, injected datagram).",
+        rule: "2..=4 real instances put, by public operations only, into random reachable mutual-knowledge states (unknown/Alive/Suspect/Down/superseded generation; active/idle/left/told-down; renewable or not; notify_down_members on/off; with/without custom broadcasts); one well-formed datagram of each of the 11 kinds (case index mod 11) injected; network drained with all timers held under 5 delivery-order strategies (random, FIFO, LIFO, gossip-before-TurnUndead with newest identities first, TurnUndead-first with oldest identities first). Caps: 64 deliveries per cascade, 4 deliveries of the same (src,dst,kind), fan-out (self-directed updates+1)*k+2 per delivery. Non-trivial: >= 2 deliveries; distinct by (world, injected datagram). A quarter of the worlds live at generations 253..255 (the next renewal wraps and fails) and renewable worlds also use renew() policies that yield losing or identical identities. 'feedstorm': 7..12 instances with packets that hold one or two Feed members; an Announce is answered, then a datagram that makes the same instance gossip (suspicion/Down about itself, TurnUndead) is delivered: exactly one gossip round (<= k) plus at most one reply is admissible.",
         assumptions: &["a finite run cannot show non-termination: a reply chain longer than the caps (an order of magnitude above the longest legitimate one observed) is what is reported"],
         required: &["cascades_drained", "initial/TurnUndead", "initial/Ping"],
         workloads: vec![
